@@ -168,6 +168,19 @@ impl DocumentBuilder {
                 attribute_builder.prefix_span,
                 xot,
             )?;
+            // two attributes may be written differently (with different
+            // prefixes bound to the same namespace) and still be duplicates
+            if attribute_spans.iter().any(|(seen_name_id, _, _)| *seen_name_id == name_id) {
+                let attr_name = if attribute_builder.prefix.is_empty() {
+                    attribute_builder.name
+                } else {
+                    format!("{}:{}", attribute_builder.prefix, attribute_builder.name)
+                };
+                return Err(ParseError::DuplicateAttribute(
+                    attr_name,
+                    attribute_builder.name_span,
+                ));
+            }
             // if we see xml:id, check that they aren't a duplicate
             // and keep track of all node ids that have an xml:id
             if name_id == self.xml_id_id {
